@@ -110,7 +110,7 @@ Proof.
     rewrite authorize_core_pkce_old by assumption. reflexivity.
   - left. match goal with |- context [device_authorize cfg s ?x1 ?x2 ?x3 ?x4] => destruct (device_authorize_tables cfg s x1 x2 x3 x4) as [_ [_ [_ [Hp _]]]] end.
     now rewrite Hp.
-  - left. match goal with |- context [decide cfg s ?x1 ?x2 ?x3 ?x4 ?x5] => destruct (decide_tables cfg s x1 x2 x3 x4 x5) as [_ [_ [_ [Hp _]]]] end.
+  - left. match goal with |- context [decide cfg s ?x1 ?x2 ?x3 ?x4 ?x5 ?x6] => destruct (decide_tables cfg s x1 x2 x3 x4 x5 x6) as [_ [_ [_ [Hp _]]]] end.
     now rewrite Hp.
   - left. unfold device_poll.
     destruct auth as [c|]; [|reflexivity]. destruct (clients s c) as [cl|]; [|reflexivity].
